@@ -1,4 +1,4 @@
-//go:build verif && peerqhook
+//go:build verif
 
 package peerq
 
